@@ -71,6 +71,27 @@ func parseSV(s string) sv {
 	return v
 }
 
+// parseReq parses a REQUESTED version the way the tool's semver library documents for
+// NewVersion: "SemVer-ish" spellings with one or two numeric components are coerced
+// (3 = 3.0.0, 3.5 = 3.5.0). It returns the parsed value and the canonical full tag name
+// ("v" + MAJOR.MINOR.PATCH[-pre][+meta]) that the tool prints on stdout.
+var looseRe = regexp.MustCompile(`^v?(0|[1-9]\d*)(?:\.(0|[1-9]\d*))?(?:\.(0|[1-9]\d*))?(-[0-9A-Za-z-]+(?:\.[0-9A-Za-z-]+)*)?(\+[0-9A-Za-z-]+(?:\.[0-9A-Za-z-]+)*)?$`)
+
+func parseReq(s string) (sv, string) {
+	m := looseRe.FindStringSubmatch(s)
+	if m == nil {
+		return sv{}, ""
+	}
+	num := func(x string) string {
+		if x == "" {
+			return "0"
+		}
+		return x
+	}
+	full := fmt.Sprintf("v%s.%s.%s%s%s", m[1], num(m[2]), num(m[3]), m[4], m[5])
+	return parseSV(full), full
+}
+
 func cmpInt(a, b int) int {
 	switch {
 	case a < b:
@@ -123,11 +144,6 @@ func cmpSV(a, b sv) int {
 	return cmpInt(len(a.pre), len(b.pre))
 }
 
-func canonical(requested string) string {
-	// "v" + the version as written without its optional v (the tool prints semver's String())
-	return "v" + strings.TrimPrefix(requested, "v")
-}
-
 // ---- generators -------------------------------------------------------------------------------
 
 var pres = []string{"", "", "", "-alpha", "-alpha.1", "-alpha.2", "-alpha.beta", "-beta", "-beta.2", "-beta.11", "-rc.1", "-rc.2", "-1", "-2", "-x-y"}
@@ -137,6 +153,15 @@ var malformed = []string{"a.b.c", "v1.2.x", "1.2.3.4.5", "release.1.2"}
 
 func genVersion(t *rapid.T, label string) string {
 	v := fmt.Sprintf("%d.%d.%d", rapid.IntRange(0, 4).Draw(t, label+"maj"), rapid.IntRange(0, 3).Draw(t, label+"min"), rapid.IntRange(0, 3).Draw(t, label+"pat"))
+	if label == "req" {
+		// requested versions may use the short spellings the semver library coerces (3.5 = 3.5.0)
+		switch rapid.IntRange(0, 5).Draw(t, label+"short") {
+		case 4:
+			v = v[:strings.LastIndex(v, ".")]
+		case 5:
+			v = v[:strings.Index(v, ".")]
+		}
+	}
 	v += rapid.SampledFrom(pres).Draw(t, label+"pre") + rapid.SampledFrom(metas).Draw(t, label+"meta")
 	if rapid.IntRange(0, 4).Draw(t, label+"v") > 0 {
 		v = "v" + v
@@ -180,13 +205,22 @@ func gen(t *rapid.T) Case {
 				ver = fmt.Sprintf("v%d.%d.%d", base.maj, base.min, base.pat+1)
 			case 2:
 				ver = fmt.Sprintf("v%d.%d.%d", base.maj, base.min+1, 0)
+				if rapid.Bool().Draw(t, "short") {
+					ver = fmt.Sprintf("v%d.%d", base.maj, base.min+1)
+				}
 			case 3:
 				ver = fmt.Sprintf("v%d.%d.%d-rc.1", base.maj, base.min, base.pat)
 			case 4:
 				ver = fmt.Sprintf("v%d.%d.%d+meta", base.maj, base.min, base.pat)
 			default:
 				ver = fmt.Sprintf("v%d.%d.%d", base.maj+1, 0, 0)
+				if rapid.Bool().Draw(t, "short") {
+					ver = fmt.Sprintf("%d", base.maj+1)
+				}
 			}
+		case k == 8 && i > 0:
+			// the release job run again without a version bump
+			ver = c.Steps[i-1].Version
 		case k == 9:
 			ver = rapid.SampledFrom([]string{"abc", "not-a-version", "v", "1.x.0"}).Draw(t, "invalid")
 		default:
@@ -271,7 +305,10 @@ func classify(c Case) (string, []string) {
 	var cl []string
 	nt := false
 	for _, s := range c.Steps {
-		req := parseSV(s.Version)
+		req, _ := parseReq(s.Version)
+		if req.ok && len(strings.Split(strings.SplitN(strings.SplitN(s.Version, "+", 2)[0], "-", 2)[0], ".")) < 3 {
+			cl = append(cl, "requested=short-spelling")
+		}
 		sameMajor, distract := 0, 0
 		for _, tg := range c.Tags {
 			v := parseSV(tg.Name)
@@ -361,7 +398,7 @@ func run(c Case) *vh.Violation {
 		}
 
 		// model
-		req := parseSV(s.Version)
+		req, full := parseReq(s.Version)
 		maxSame := sv{ok: true} // v0.0.0
 		hasMalformed := false
 		for name := range before.tags {
@@ -418,7 +455,7 @@ func run(c Case) *vh.Violation {
 			}
 			return fail("refused", "tagging was permitted (clean, dry-run=false, %s > %v) but the tool exited %d", s.Version, maxSame, res.Exit)
 		}
-		full, major := canonical(s.Version), fmt.Sprintf("v%d", req.maj)
+		major := fmt.Sprintf("v%d", req.maj)
 		want := map[string]string{}
 		for k, v := range before.tags {
 			want[k] = v
